@@ -205,12 +205,12 @@ pub fn run(ctx: &Ctx) -> i32 {
         let c = &structured[idx as usize];
         check_case(ctx, "structured", idx, &c.label, &c.cfg, &c.entries, rng);
     });
-    let n = ctx.n(2000, 60_000);
+    let n = ctx.n(2000, 150_000);
     ctx.par("random", n, true, |idx, rng| {
         let (entries, cfg, shape) = gen::gen_file_case(rng, 50_000);
         check_case(ctx, "random", idx, &format!("random/{:?}", shape), &cfg, &entries, rng);
     });
-    let n = ctx.n(300, 8000);
+    let n = ctx.n(300, 20_000);
     ctx.par("deep", n, true, |idx, rng| {
         let levels = *rng.pick(&[2u8, 2, 3, 3, 4, 7, 255]);
         let cnt = rng.range(20, 140);
